@@ -475,7 +475,7 @@ func c04multiExec(c *h.Ctx, cs *h.Case) {
 					// the property does not demand that the reader waits — only that the batch is not lost: see recv
 					want = got
 				}
-				if got != want {
+				if !c04sameBatches(got, want) {
 					cs.Fail("batch-mismatch", fmt.Sprintf("after %q instance %d received %q, the property demands %q", op, id, got, want))
 				}
 			}
@@ -515,7 +515,7 @@ func c04multiExec(c *h.Ctx, cs *h.Case) {
 					want = append(want, in.inChan[t]...)
 					in.inChan[t] = nil
 				}
-				if got != c04join(want) {
+				if !c04sameBatches(got, c04join(want)) {
 					cs.Fail("channel-mismatch", fmt.Sprintf("the channels of instance %d held %q when the protocol read them, the property demands %q (every complete round as one batch, none lost)", id, got, c04join(want)))
 				}
 			}
